@@ -4,7 +4,8 @@ from pyvc import z as Z
 from pyvc import modelx
 from pyvc.run import Item
 
-TARGETS = ['clastic.application.Application.add', 'clastic.route.BoundRoute.__init__']
+TARGETS = ['clastic.application.Application.add', 'clastic.route.BoundRoute.__init__',
+           'clastic.application.SubApplication.bind_all']
 
 CANARIES = [
     {'name': 'add-inserts-at-fixed-index', 'file': 'clastic/application.py',
@@ -19,6 +20,20 @@ QUICK_CANARIES = 2
 def build(pc, E, canary=None):
     pc.E = E
     pc.add_functions(E, TARGETS)
+    # T (evaluation on the real AST): route factories bind eagerly -- a generator would bind lazily, while
+    # add() is already inserting, and a failing bind would leave the table half-updated
+    import ast
+    mod = E.repo.module('clastic.application')
+    lazy = []
+    for cname, cnode in mod.classes.items():
+        for item in cnode.body:
+            if isinstance(item, ast.FunctionDef) and item.name in ('bind_all', 'bind'):
+                if any(isinstance(n, (ast.Yield, ast.YieldFrom)) for n in ast.walk(item)):
+                    lazy.append('%s.%s' % (cname, item.name))
+    it = Item('C11.T/route-factories-bind-eagerly', 'T', [], z3.BoolVal(not lazy),
+              note='bind_all/bind of the route factories are not generator functions' + ('; lazy: %s' % lazy if lazy else ''))
+    it.by = 'evaluation'
+    pc.add_item(it)
     if canary is not None:
         return
     pc.assumptions += ['sha1 collision-freedom for generated-code file names (compile_code)']
